@@ -28,7 +28,7 @@ fn history(x: &Execution) -> Result<Vec<HOp>, String> {
     for r in &x.history {
         let op = match &r.op {
             POp::Api(o) => o,
-            POp::Unlink(_) => continue,
+            POp::Unlink(_) | POp::ClockJump(_) => continue,
         };
         let res = &r.outcome.res;
         let subs = match (op, res) {
